@@ -196,6 +196,7 @@ class Interp:
         self.env[vec] = Vec(1, 1, None, self.fresh())
         self.tol = tolname
         self.ret = None
+        self.rets = []
         self.block(fn.body)
         return self.ret
 
@@ -213,7 +214,12 @@ class Interp:
                 empty = len(s.body) == 1 and isinstance(s.body[0], ast.Return) and not s.orelse and \
                     norm(s.body[0].value).startswith(('np.array([]', 'np.zeros(0', 'np.empty(0', '[]'))
                 if not (zero and empty):
-                    raise AnalysisError(f'{self.fi.qual}: conditional `{norm(t)[:50]}` is not the zero-vector guard')
+                    # any other conditional: both arms are followed; each return met is judged on its own
+                    saved = dict(self.env)
+                    self.block(s.body)
+                    self.env = dict(saved)
+                    self.block(s.orelse)
+                    self.env = saved
                 continue
             if isinstance(s, ast.Assign) and len(s.targets) == 1:
                 t = s.targets[0]
@@ -232,8 +238,15 @@ class Interp:
                     self.env[t.value.id] = Unknown(f'store `{norm(s)[:50]}` not recognised')
                     continue
             if isinstance(s, ast.Return):
+                self.rets.append((s, dict(self.env)))
                 self.ret = s
                 return
+            if isinstance(s, (ast.Assign, ast.AugAssign)):
+                for t in (s.targets if isinstance(s, ast.Assign) else [s.target]):
+                    for n_ in ast.walk(t):
+                        if isinstance(n_, ast.Name):
+                            self.env[n_.id] = Unknown(f'`{norm(s)[:50]}` is not a recognised step of the rule')
+                continue
             raise AnalysisError(f'{self.fi.qual}: statement `{norm(s)[:60]}` is not part of a recognised truncation rule')
 
 
@@ -268,14 +281,29 @@ def rule(chk, repo, rid):
     ret = ip.run(fi.params[1])
     if ret is None:
         raise AnalysisError('retained_bond_indices: no final return found')
+    n = 0
+    # every return but the last (straight-line) one is judged by its form alone
+    final_env = None
+    for r_, env_ in ip.rets:
+        if r_ is ret and final_env is None:
+            final_env = env_
+            continue
+        if kept_set(ip, r_) is None:
+            chk.ob(rid, where(repo, fi, r_), 'retained_bond_indices: every result is the set of positions whose cumulative weight '
+                   'exceeds tol', False, f'`{norm(r_)[:80]}` is not of the form np.where(<cumulative weights> > tol)[0]',
+                   key=f'{rid}|form|{norm(r_)[:60]}')
+            n += 1
     ks = kept_set(ip, ret)
     w = where(repo, fi, ret)
-    n = 0
     if ks is None:
-        chk.ob(rid, w, 'retained_bond_indices: the result is the set of positions whose weight exceeds tol', False,
-               f'`{norm(ret)[:80]}` is not of the form np.where(<weights> > tol)[0]', key=f'{rid}|form')
-        return 1
+        chk.ob(rid, w, 'retained_bond_indices: the result is the set of positions whose cumulative weight exceeds tol '
+               '(an element-wise test of the accumulated weights: tied values on the cut are split, which no threshold on the '
+               'values themselves can do)', False,
+               f'`{norm(ret)[:80]}` is not of the form np.where(<cumulative weights> > tol)[0]', key=f'{rid}|form')
+        return n + 1
     wexpr, op, cmp_ = ks
+    if final_env is not None:
+        ip.env = final_env
     v = ip.ev(wexpr)
     isv = isinstance(v, Vec)
     chk.ob(rid, w, 'T1: the compared quantity is scale invariant and quadratic in the singular values (a relative weight)',
